@@ -919,6 +919,9 @@ func c14Eval(c *Ctx, kind string, raw []byte) {
 	default:
 		return
 	}
+	if prog == nil {
+		prog = []c12Op{}
+	}
 	for i := range prog {
 		prog[i].norm()
 	}
